@@ -20,8 +20,12 @@ Definition s_add_matches (s : state) (ms : list path) : res :=
   end.
 Definition s_add_glob (s : state) (pat : bytes) : res := s_add_matches s (g_glob s pat).
 
+(* a pathspec without wildcard also names everything below the directory of that name *)
+Definition has_meta (pat : bytes) : bool := existsb (fun c => (c =? STAR) || (c =? QM)) pat.
+Definition git_rm_match (pat : bytes) (q : path) : bool := gmatch pat q || (negb (has_meta pat) && under pat q).
+
 Definition s_rm_glob (s : state) (pat : bytes) : res :=
-  let victims := filter (gmatch pat) (map ie_path (st_index s)) in
+  let victims := filter (git_rm_match pat) (map ie_path (st_index s)) in
   match victims with
   | [] => RErr s
   | _ =>
